@@ -51,6 +51,7 @@ func (s *TrafficKeyState) Install(write, read *TrafficGeneration) {
 
 	installTrafficGeneration(&s.writeCurrent, &s.writeOld, write)
 	installTrafficGeneration(&s.readCurrent, &s.readOld, read)
+	verifTrafficInstalled(s, write, read)
 }
 
 // Write returns the write generation associated with epoch.
